@@ -283,14 +283,25 @@ func runBehaviour(t *testing.T, b Behaviour, w *bufio.Writer, hops map[bool]*hop
 	// reports: the scripted bounce target's "Dsn" event is re-emitted as "Report"
 	rtr := vtrace.New(&reportFilter{tr: tr}, b.ID)
 	bnc := &scripted.Bounce{Tr: rtr, ID: idOf}
-	q, err := queue.VerifNewQueue(queue.VerifConfig{
-		Location: dir, Target: downs[b.Cfg.Lmtp], Bounce: bnc, MaxTries: 2, MaxParallelism: 1,
-		InitialRetryTime: time.Millisecond, RetryTimeScale: 1, PostInitDelay: 0,
-		Hostname: "mx.example.org", AutogenMsgDomain: "example.org", Log: log.Logger{Out: log.NopOutput{}},
-	})
-	if err != nil {
-		t.Fatal(err)
+	// harness-only dimension: on every third behaviour the server is restarted (clean stop) after the
+	// first attempt; the retries then come from what a new queue instance reads back from the spool
+	restart := b.ID%3 == 0 && b.Cfg.How == "data"
+	mkQueue := func(retry time.Duration) *queue.Queue {
+		q, err := queue.VerifNewQueue(queue.VerifConfig{
+			Location: dir, Target: downs[b.Cfg.Lmtp], Bounce: bnc, MaxTries: 2, MaxParallelism: 1,
+			InitialRetryTime: retry, RetryTimeScale: 1, PostInitDelay: 0,
+			Hostname: "mx.example.org", AutogenMsgDomain: "example.org", Log: log.Logger{Out: log.NopOutput{}},
+		})
+		if err != nil {
+			t.Fatal(err)
+		}
+		return q
 	}
+	firstRetry := time.Millisecond
+	if restart {
+		firstRetry = time.Hour
+	}
+	q := mkQueue(firstRetry)
 	curMu.Lock()
 	curTgt = q
 	curMu.Unlock()
@@ -379,6 +390,24 @@ func runBehaviour(t *testing.T, b Behaviour, w *bufio.Writer, hops map[bool]*hop
 	c.Close()
 
 	deadline := time.Now().Add(40 * time.Second)
+	if restart && ok {
+		// wait for the first attempt to be over (the message is gone, or waits for a retry an hour away)
+		for time.Now().Before(deadline) {
+			h.mu.Lock()
+			n := h.n
+			h.mu.Unlock()
+			if ents, _ := os.ReadDir(dir); len(ents) == 0 || n >= 1 {
+				break
+			}
+			time.Sleep(2 * time.Millisecond)
+		}
+		q.Close() // waits for the running attempt
+		q = mkQueue(time.Millisecond)
+		curMu.Lock()
+		curTgt = q
+		curMu.Unlock()
+		tr.Emit("Restarted", nil)
+	}
 	for time.Now().Before(deadline) {
 		ents, _ := os.ReadDir(dir)
 		if len(ents) == 0 {
